@@ -325,9 +325,9 @@ macro_rules! transparent_len_rule {
         }
     };
 }
-//@ {"p":"C13","tier":"experimental","why_experimental":"out of memory at 14 and at 34 GB (Vec::extend(drain(..)) over the Output record: 2.0 M symex steps)","clause":"transparent::Bundle::merge, output lists of different lengths (receiving copy shorter): Some iff the receiving copy's outputs are modifiable and the common prefix agrees; the result has exactly max(n_a, n_b) outputs, the prefix kept and the other copy's tail moved over once, in order","bounds":"0 inputs; 1 output vs 2 outputs; output values and both tx_modifiable bytes symbolic; scripts concrete, maps empty","assume":"stub: roles::combiner::merge_map on two empty maps = true (asserted empty)","stub":true,"replay":"model","covers":2,"t":1200,"unwindset":{"collections::btree.*":2,"drop_glue::<[pczt::transparent::Output]>.0":3,"drop_glue::<[pczt::transparent::Input]>.0":1,"std::vec::Drain<'_, pczt::transparent::Output> as std::iter::Iterator>::fold.0":2,"std::vec::Drain<'_, pczt::transparent::Input> as std::iter::Iterator>::fold.0":1}}
+//@ {"p":"C13","tier":"thorough","mem_gb":44,"clause":"transparent::Bundle::merge, output lists of different lengths (receiving copy shorter): Some iff the receiving copy's outputs are modifiable and the common prefix agrees; the result has exactly max(n_a, n_b) outputs, the prefix kept and the other copy's tail moved over once, in order","bounds":"0 inputs; 1 output vs 2 outputs; output values and both tx_modifiable bytes symbolic; scripts concrete, maps empty","assume":"stub: roles::combiner::merge_map on two empty maps = true (asserted empty)","stub":true,"replay":"model","covers":2,"t":2400,"unwindset":{"collections::btree.*":2,"drop_glue::<[pczt::transparent::Output]>.0":3,"drop_glue::<[pczt::transparent::Input]>.0":1,"std::vec::Drain<'_, pczt::transparent::Output> as std::iter::Iterator>::fold.0":2,"std::vec::Drain<'_, pczt::transparent::Input> as std::iter::Iterator>::fold.0":1}}
 transparent_len_rule!(c13_transparent_outputs_1_2, 1, 2);
-//@ {"p":"C13","tier":"quick","clause":"same, receiving copy longer: Some iff the OTHER copy's outputs are modifiable and the prefix agrees; nothing is moved","bounds":"0 inputs; 2 outputs vs 1 output","assume":"stub: merge_map on two empty maps","stub":true,"replay":"model","covers":2,"t":1200,"unwindset":{"collections::btree.*":2,"drop_glue::<[pczt::transparent::Output]>.0":3,"drop_glue::<[pczt::transparent::Input]>.0":1,"std::vec::Drain<'_, pczt::transparent::Output> as std::iter::Iterator>::fold.0":2,"std::vec::Drain<'_, pczt::transparent::Input> as std::iter::Iterator>::fold.0":1}}
+//@ {"p":"C13","tier":"quick","clause":"same, receiving copy longer: Some iff the OTHER copy's outputs are modifiable and the prefix agrees; nothing is moved","bounds":"0 inputs; 2 outputs vs 1 output","assume":"stub: merge_map on two empty maps","stub":true,"replay":"model","covers":2,"t":2400,"unwindset":{"collections::btree.*":2,"drop_glue::<[pczt::transparent::Output]>.0":3,"drop_glue::<[pczt::transparent::Input]>.0":1,"std::vec::Drain<'_, pczt::transparent::Output> as std::iter::Iterator>::fold.0":2,"std::vec::Drain<'_, pczt::transparent::Input> as std::iter::Iterator>::fold.0":1}}
 transparent_len_rule!(c13_transparent_outputs_2_1, 2, 1);
-//@ {"p":"C13","tier":"thorough","clause":"same, empty receiving copy","bounds":"0 inputs; 0 outputs vs 2 outputs","assume":"stub: merge_map on two empty maps","stub":true,"replay":"model","covers":2,"t":1200,"unwindset":{"collections::btree.*":2,"drop_glue::<[pczt::transparent::Output]>.0":3,"drop_glue::<[pczt::transparent::Input]>.0":1,"std::vec::Drain<'_, pczt::transparent::Output> as std::iter::Iterator>::fold.0":2,"std::vec::Drain<'_, pczt::transparent::Input> as std::iter::Iterator>::fold.0":1}}
+//@ {"p":"C13","tier":"thorough","clause":"same, empty receiving copy","bounds":"0 inputs; 0 outputs vs 2 outputs","assume":"stub: merge_map on two empty maps","stub":true,"replay":"model","covers":2,"t":2400,"unwindset":{"collections::btree.*":2,"drop_glue::<[pczt::transparent::Output]>.0":3,"drop_glue::<[pczt::transparent::Input]>.0":1,"std::vec::Drain<'_, pczt::transparent::Output> as std::iter::Iterator>::fold.0":2,"std::vec::Drain<'_, pczt::transparent::Input> as std::iter::Iterator>::fold.0":1}}
 transparent_len_rule!(c13_transparent_outputs_0_2, 0, 2);
